@@ -1,5 +1,6 @@
 import BluetoeModel.AttWriteQueue.Props
 import BluetoeModel.AttWriteQueue.Shape
+import BluetoeModel.Cccd.ShapeExact
 /-!
   # C07 (and the CCCD array of C09) — the representation invariant of the shared write queue
 
@@ -91,6 +92,47 @@ theorem released_after_wf (s : State) (hi : Inv s) (c S : Nat) (conn : Conn)
     (step s (.disc c)).1.queue = Queue.empty := by
   obtain ⟨h1, h2⟩ := released_after s c S conn hc hq ho
   exact ⟨fun flag hf => h1 flag hf (step_inv hi _).2, h2⟩
+
+/-- **attr_clause_exact**: with the numeric clauses (handles fit 16 bits, `max_mtu_size ≥ 23`, queue
+    size a `uint16_t`), "no history is ever answered out of bounds" is *equivalent* to the attribute
+    clause in its weakest form `attrSafe` (Cccd/Shape.lean): the precondition on the attributes
+    cannot be weakened. `declWF` asks for `attrOk`, what the types deliver (`attrSafe_of_attrOk`). -/
+theorem attr_clause_exact (d : Decl) (mem : Mem) (hlen : d.attrs.length ≤ 65535) (hmtu : 23 ≤ d.serverMtu)
+    (hS : ∀ S, d.queueSize = some S → S < 65536) :
+    (∀ ops, Out.oob ∉ (run (State.init d mem) ops).2) ↔ d.attrs.all (attrSafe d.nCccd mem) = true := by
+  constructor
+  · intro h
+    apply Classical.byContradiction
+    intro hne
+    obtain ⟨i, hi, hbad⟩ := exists_unsafe_index hne
+    obtain ⟨o, ho, hoob⟩ := handlePlain_oob (s := setConn (Cccd.State.init d mem) 0 (encConn d)) (conn := encConn d)
+      0 i hi (by omega) rfl (connOk_init d).1 hbad
+    apply h [.sec 0 true 1, .pdu 0 [o, UInt8.ofNat ((i + 1) % 256), UInt8.ofNat ((i + 1) / 256)]]
+    have h16 : ¬ (o = 0x16) := by rcases ho with rfl | rfl <;> decide
+    have h18 : ¬ (o = 0x18) := by rcases ho with rfl | rfl <;> decide
+    have hsec : step (State.init d mem) (.sec 0 true 1)
+        = ({ base := setConn (Cccd.State.init d mem) 0 (encConn d), queue := Queue.empty }, .ok) := by
+      simp [step, Op.conn, State.init, Cccd.State.init, stepConn, encConn, List.replicate]
+    simp only [run, hsec]
+    cases hq : d.queueSize with
+    | none =>
+      have : (setConn (Cccd.State.init d mem) 0 (encConn d)).decl.queueSize = none := hq
+      simp only [step, Op.conn, conn0_after_sec, this, Cccd.step, h16, h18, or_self, if_false, hoob]
+      simp
+    | some S =>
+      have : (setConn (Cccd.State.init d mem) 0 (encConn d)).decl.queueSize = some S := hq
+      simp only [step, Op.conn, conn0_after_sec, this, h16, h18, if_false, hoob]
+      simp
+  · intro h ops
+    have hinv : Inv (State.init d mem) := by
+      refine ⟨shape_init_safe h hmtu, ?_, ⟨[], rfl, by simp⟩⟩
+      show match d.queueSize with
+        | none => Queue.empty = Queue.empty
+        | some S => S < 65536 ∧ ([] : List UInt8).length ≤ S
+      cases hq : d.queueSize with
+      | none => rfl
+      | some S => exact ⟨hS S hq, Nat.zero_le _⟩
+    exact (run_inv hinv ops).2
 
 /-! ### non-vacuity, and why each clause of `declWF` is there -/
 
